@@ -153,6 +153,25 @@ static void run_case(const std::string& cid, Toks& t) {
         }
         exercise(cid, "D", dpk, mode, part->topology, dl, newcols);
     }
+    if (mode == 1) {
+        // the pair of packages a distributed matrix carries (ParMatrix::init_tap_communicators: 3-step tap_comm and 2-step
+        // tap_mat_comm sharing their on-node part), and the derived pair of ParMatrix::update_tap_comm
+        ParCSRMatrix* M = new ParCSRMatrix(part, N, N, nloc, (int)lids.size(), (int)mycols.size());
+        M->on_proc_column_map = lids; M->off_proc_column_map = mycols;
+        M->local_row_map.clear(); for (int i = 0; i < nloc; i++) M->local_row_map.push_back(f0 + i);
+        M->init_tap_communicators();
+        exercise(cid, "M3", M->tap_comm, 1, part->topology, lids, mycols);
+        exercise(cid, "M2", M->tap_mat_comm, 2, part->topology, lids, mycols);
+        if (derive == 2) {
+            std::vector<int> off_to_new(mycols.size(), -1), newcols, on_to_new(lids.size(), -1), dl; int ctr = 0, k = 0;
+            for (size_t j = 0; j < mycols.size(); j++) if (gkeep[mycols[j]]) { off_to_new[j] = ctr++; newcols.push_back(mycols[j]); }
+            for (size_t i = 0; i < lids.size(); i++) if (gkeep[lids[i]]) { on_to_new[i] = k++; dl.push_back(lids[i]); }
+            ParCSRMatrix* M2 = new ParCSRMatrix(part, N, N, nloc, (int)dl.size(), (int)newcols.size());
+            M2->update_tap_comm(M, on_to_new, off_to_new);
+            exercise(cid, "N3", M2->tap_comm, 1, part->topology, dl, newcols);
+            exercise(cid, "N2", M2->tap_mat_comm, 2, part->topology, dl, newcols);
+        }
+    }
     emit0(cid, "DONE", "1");
 }
 
